@@ -29,6 +29,7 @@ func (t *timeline) add(e string) {
 }
 
 func runSoak(r *rand.Rand) {
+	family = "soak"
 	runCase(r, soakCase)
 }
 
